@@ -261,8 +261,20 @@ class P:
             else: toks = self.skip_balanced("{", "}")
             return ("macro", path, toks)
         if self.at("{") and not nostruct and path.split("::")[0][0].isupper():
-            self.skip_balanced("{", "}")
-            return ("struct", path)
+            save = self.i
+            try:
+                self.eat("{"); fields = []
+                while not self.at("}"):
+                    name = self.next()
+                    if self.opt(":"): val = self.expr()
+                    else: val = ("path", name)
+                    fields.append((name, val)); self.opt(",")
+                self.eat("}")
+                return ("struct", path, fields)
+            except SyntaxError:
+                self.i = save
+                self.skip_balanced("{", "}")
+                return ("struct", path)
         return ("path", path)
     def if_(self):
         self.eat("if")
@@ -852,6 +864,10 @@ class Lower:
 
     def match(self, e, env, k):
         _, scrut, arms = e
+        if show(scrut) == "self.future.as_mut().poll(cx)":
+            # `ReceiveStream::poll_next`: run the inner future's poll, then look at its result
+            r = self.fresh("r")
+            return f"Act.bind (Gen.Future_ReceiveFuture_poll x) fun {r} => " + self.arms(V("pollres", r), arms, env, k, None)
         return self.expr(scrut, env, lambda env1, v: self.arms(v, arms, env1, k, None))
 
     def bindpat(self, pat, v, env):
@@ -892,6 +908,18 @@ class Lower:
                 if p[0] == "wild": out += f" | _ => {body(b, env)}"
                 else: out += f" | {FUTST[p[1]]} => {body(b, env)}"
             return out + ")"
+        if ty == "pollres":
+            ready = next((p, b) for p, b in arms if p[0] == "ctor" and p[1] == "Poll::Ready")
+            pend = next((p, b) for p, b in arms if p[0] == "ctor" and p[1] == "Poll::Pending")
+            nm = ready[0][2][0][1]
+            return (f"(match {v.tm} with | .pending => {body(pend[1], env)}"
+                    f" | _ => {body(ready[1], bind(env, nm, V('resres', v.tm)))})")
+        if ty == "resres":
+            ok = next((p, b) for p, b in arms if p[0] == "ctor" and p[1] == "Ok")
+            er = next((p, b) for p, b in arms if p[0] == "ctor" and p[1] == "Err")
+            d = ok[0][2][0][1]
+            return (f"(match {v.tm} with | .val v_{d} => {body(ok[1], bind(env, d, V('msg', 'v_' + d)))}"
+                    f" | .err _ => {body(er[1], env)} | _ => .ret {v.tm})")
         if ty == "pollb":
             ready = next((p, b) for p, b in arms if p[0] == "ctor" and p[1] == "Poll::Ready")
             pend = next((p, b) for p, b in arms if p[0] == "ctor" and p[1] == "Poll::Pending")
@@ -954,6 +982,56 @@ class Lower:
         self.params = []
         return self.block(ast, env, lambda env1, v: self.ret(env1, v), is_fn_body=True)
 
+def lower_new(fn):
+    """`ChannelInternal::new(bounded, capacity)`: a pure function to `Chan` (straight-line code, one `if` that assigns a local)"""
+    ast = P(fn["toks"]).block()
+    env = {"bounded": ("bool", "bounded"), "capacity": ("nat", "capacity")}
+    def val(e):
+        t = show(e)
+        if e[0] == "lit": return ("bool", e[1]) if e[1] in ("true", "false") else ("nat", re.sub(r"[a-z_].*$", "", e[1]))
+        if e[0] == "path" and e[1] in env: return env[e[1]]
+        if t == "usize::MAX": return ("cap", "none")
+        if e[0] == "unop" and e[1] == "!":
+            ty, tm = val(e[2]); return ("bool", f"(!{tm})")
+        if e[0] == "binop" and e[1] == "==":
+            a, b = val(e[2]), val(e[3]); return ("bool", f"({a[1]} == {b[1]})")
+        if e[0] == "if" and e[3] is not None:
+            c = val(e[1]); a = val(e[2][2]); b = val(e[3][2]); return (a[0], f"(if {c[1]} then {a[1]} else {b[1]})")
+        if t.startswith("VecDeque::with_capacity("): return ("list", "[]")
+        raise Unsupported("constructor expression " + t)
+    def cap(v): return v[1] if v[0] == "cap" else f"(some {v[1]})"
+    lets = []
+    for st in ast[1]:
+        if st[0] == "let" and st[1][0] == "id":
+            name = st[1][1]
+            if st[2][0] == "struct" and len(st[2]) == 3:
+                f = dict(st[2][2])
+                need = {"queue", "recv_blocking", "wait_list", "recv_count", "send_count", "capacity"}
+                if set(f) != need: raise Unsupported("fields of ChannelInternal: " + str(sorted(f)))
+                vals = {k: val(v) for k, v in f.items()}
+                rec = (f"{{ queue := {vals['queue'][1]}, recvBlocking := {vals['recv_blocking'][1]}, waitList := {vals['wait_list'][1]}, "
+                       f"capacity := {cap(vals['capacity'])}, recvCount := {vals['recv_count'][1]}, sendCount := {vals['send_count'][1]} }}")
+                env[name] = ("chan", rec)
+            else:
+                env[name] = val(st[2])
+        elif st[0] == "expr" and st[1][0] == "if" and st[1][3] is None:
+            # `if c { x = v; }`: conditional assignment of a local
+            c = val(st[1][1])
+            for a in st[1][2][1]:
+                if a[0] == "expr" and a[1][0] == "assign" and a[1][1] == "=" and a[1][2][0] == "path":
+                    x = a[1][2][1]; new = val(a[1][3]); old = env[x]
+                    if new[0] == "cap" or old[0] == "cap":
+                        env[x] = ("cap", f"(if {c[1]} then {cap(new)} else {cap(old)})")
+                    else:
+                        env[x] = (old[0], f"(if {c[1]} then {new[1]} else {old[1]})")
+                else: raise Unsupported("constructor statement " + show_stmt(a))
+        else: raise Unsupported("constructor statement " + show_stmt(st))
+    tail = show(ast[2]) if ast[2] else ""
+    m = re.match(r"Arc::new\(Mutex::from\((\w+)\)\)$", tail)
+    if not m or env.get(m.group(1), ("", ""))[0] != "chan": raise Unsupported("constructor result " + tail)
+    return env[m.group(1)][1]
+
+
 def lean_name(fn): return f"{fn['ctx']}_{fn['name']}"
 
 RET_TY = {"Option<SignalTerminator<T>>": ("opt", "sig"), "bool": "bool", "": "unit"}
@@ -1008,7 +1086,7 @@ def main():
         if rt is None: raise SystemExit(f"rs2lean: unknown return type {f['ret']!r} of ChannelInternal::{f['name']}")
         isigs[f["name"]] = dict(ret=rt)
     api = [f for f in fns if f["ctx"] != "ChannelInternal" and f["file"] != "internal.rs"
-           and any(t in ("acquire_internal", "try_acquire_internal") for t in f["toks"])]
+           and (any(t in ("acquire_internal", "try_acquire_internal") for t in f["toks"]) or (f["ctx"], f["name"]) == ("Stream_ReceiveStream", "poll_next"))]
     out = ["/-", "  GENERATED by extract/rs2lean.py from /repo/src/{internal,lib,future}.rs on every run — do not edit.",
            "  One definition per function that touches the channel lock; see Kanal/Act.lean for the target language",
            "  and Kanal/TieCode.lean for the theorems that relate each definition to the hand-written model.", "-/",
@@ -1047,6 +1125,26 @@ def main():
             out += pretty(body).split("\n"); out.append("")
             ranges[nm] = (start, len(out))
             for u in L.unknown: problems.append(f"{nm}: unknown expression `{u}`")
+        # the constructor of the logical state and its four call sites
+        newfn = [f for f in fns if f["ctx"] == "ChannelInternal" and f["name"] == "new"]
+        try:
+            body = lower_new(newfn[0]) if len(newfn) == 1 else None
+            if body is None: raise Unsupported("ChannelInternal::new not found exactly once")
+        except (Unsupported, SyntaxError, IndexError, KeyError, TypeError) as ex:
+            problems.append(f"ChannelInternal_new: {type(ex).__name__}: {ex}")
+            body = "{ queue := [], recvBlocking := true, waitList := [], capacity := none, recvCount := 0, sendCount := 0 }"
+        out.append("/-- `ChannelInternal::new` (internal.rs): the initial logical state -/")
+        out.append("def ChannelInternal_new (bounded : Bool) (capacity : Nat) : Chan :=")
+        out.append("  " + body); out.append("")
+        calls = []
+        for f in fns:
+            if f["file"] == "lib.rs" and f["ctx"] == "top":
+                toks = " ".join(f["toks"])
+                for m_ in re.finditer(r"ChannelInternal :: new \( (\w+) , (\w+) \)", toks):
+                    calls.append((f["name"], m_.group(1), m_.group(2)))
+        out.append("/-- who calls the constructor, with which arguments -/")
+        out.append("def constructorCalls : List (String × String × String) := [" + ", ".join(f'("{a}", "{b}", "{c}")' for a, b, c in calls) + "]")
+        out.append("")
         out.append("/-- the translated functions, in source order -/")
         out.append("def names : List String := [" + ", ".join(f'"{n}"' for n in names) + "]")
         out.append("")
